@@ -532,6 +532,7 @@ type standin struct {
 	BoundQuick    string   `json:"bound_quick"`
 	BoundThorough string   `json:"bound_thorough"`
 	StandsInFor   string   `json:"stands_in_for"`
+	Flags         []string `json:"flags"` // extra go test flags, e.g. -race
 }
 
 type standinResult struct {
@@ -566,7 +567,9 @@ func runStandins(prop, tier, repo, verifDir string) []standinResult {
 		tf := filepath.Join(verifDir, s.Test)
 		ov := fmt.Sprintf(`{"Replace":{"%s/%s/zz_standin_%s":"%s"}}`, repo, s.Pkg, filepath.Base(tf), tf)
 		os.WriteFile(filepath.Join(tmp, "ov.json"), []byte(ov), 0o644)
-		cmd := exec.Command("go", "test", "-overlay", filepath.Join(tmp, "ov.json"), "-vet=off", "-count=1", "-timeout", "20m", "-run", "^"+run+"$", ".")
+		args := append([]string{"test"}, s.Flags...)
+		args = append(args, "-overlay", filepath.Join(tmp, "ov.json"), "-vet=off", "-count=1", "-timeout", "20m", "-run", "^"+run+"$", ".")
+		cmd := exec.Command("go", args...)
 		cmd.Dir = filepath.Join(repo, s.Pkg)
 		cmd.Env = append(os.Environ(), "GOFLAGS=-mod=mod", "GOPROXY=off", "GOSUMDB=off", "GOTOOLCHAIN=local")
 		t0 := time.Now()
@@ -578,7 +581,7 @@ func runStandins(prop, tier, repo, verifDir string) []standinResult {
 		}
 		ok := err == nil && strings.Contains(string(o), "ok  ") && !strings.Contains(string(o), "no tests to run")
 		out = append(out, standinResult{Name: s.Name, Bound: bound, StandsInFor: s.StandsInFor, OK: ok, Secs: time.Since(t0).Seconds(), Output: txt,
-			Cmd: fmt.Sprintf("cd %s/%s && go test -overlay <%s as in-package test> -vet=off -count=1 -run '^%s$' .", repo, s.Pkg, s.Test, run)})
+			Cmd: fmt.Sprintf("cd %s/%s && go test %s -overlay <%s as in-package test> -vet=off -count=1 -run '^%s$' .", repo, s.Pkg, strings.Join(s.Flags, " "), s.Test, run)})
 	}
 	return out
 }
